@@ -120,6 +120,7 @@ def _run_structural(ctx):
                 r1.violation(f"{f.module.relpath}::{f.qual}::recursive-delete", f"{f.qual} removes a whole directory tree ({d}): when a target declares a directory as output, every file "
                              "below it is deleted without the protect / endpoint / declared-output test that is made per declared path - protected files, other targets' outputs "
                              "and files no target declares are removed", e.where)
+                r1.instances[-1]["from_witness"] = True     # the witness project declares no directory: its agreement says nothing about this
     if not any(k.startswith("gwf.plugins.clean:") for k in deleters):
         r1.violation(ccon + "::delete", "clean never deletes anything: unprotected outputs of selected targets are not removed", clean.where)
     # _delete_file deletes its own parameter
